@@ -44,6 +44,25 @@ for d in sorted(glob.glob(os.path.join(ROOT, "seeded", "*"))):
     rows.append(f"| {os.path.basename(d)} | {m.get('summary','')[:220].replace('|','/')} | {m.get('needs','')[:200].replace('|','/')} | {'; '.join(res)} {note} |")
 text12 = "| id | change | needs to manifest | result of the property's quick tier on the changed tree |\n|---|---|---|---|\n" + "\n".join(rows) + "\n"
 
+# per-property as-built summary from the committed evidence files
+rows3 = ["| id | check module | quick runs | distinct non-trivial | abstract states | probes (non-zero/all) | fault kinds fired | recorded | repaired | seeded caught |",
+         "|---|---|---|---|---|---|---|---|---|---|"]
+for ev in sorted(glob.glob(os.path.join(ROOT, "evidence", "C*.json"))):
+    e = json.load(open(ev)); pid = e["property_id"]; c = e["coverage"]
+    mods = glob.glob(os.path.join(ROOT, "checks", f"{pid.lower()}_*.py"))
+    pr = c.get("probes", {}); nz = sum(1 for v in pr.values() if v)
+    fk = ", ".join(sorted(k.replace("fault.", "") for k, v in c.get("fault_kinds_fired", {}).items() if v))[:120]
+    rec = sum(1 for f in kf["findings"] if f["property"] == pid)
+    fx = sum(1 for f in kf["fixed"] if f"property={pid} " in f)
+    sd = [m for m in glob.glob(os.path.join(ROOT, "seeded", f"{pid}-*", "meta.json"))]
+    caught = 0
+    for m in sd:
+        j = json.load(open(m)); chk = j.get("evaluation", {}).get("checks", {})
+        if any(v.get("rc") == 1 for v in chk.values()) or "caught by" in j.get("strengthening_note", "") or "Evaluated at" in j.get("strengthening_note", ""):
+            caught += 1
+    rows3.append(f"| {pid} | `{os.path.basename(mods[0]) if mods else '?'}` | {c['evaluations']} | {c['distinct_nontrivial']} | {c.get('distinct_states', 0)} | {nz}/{len(pr)} | {fk or '—'} | {rec} | {fx} | {caught}/{len(sd)} |")
+text10 = "\n".join(rows3) + "\n"
+
 p = os.path.join(ROOT, "DESIGN.md")
 s = open(p).read()
 def put(s, tag, text):
@@ -54,5 +73,6 @@ def put(s, tag, text):
     return s[:i] + "\n" + text + "\n" + s[j:]
 s = put(s, "GENERATED FINDINGS", text11)
 s = put(s, "GENERATED SEEDED", text12)
+s = put(s, "GENERATED ASBUILT", text10)
 open(p, "w").write(s)
 print("ok", len(kf["fixed"]), len(kf["findings"]), len(rows))
